@@ -1339,10 +1339,14 @@ static void intersectSegments(Router *router, SegmentList& segments,
         {
             if (inVertSegRegion)
             {
+                // Commit the finish vertex (possibly the vertical line's own end
+                // vertex) BEFORE the break points of the horizontal line are
+                // collected, so that both lines use the same vertex here.
+                horiLine.horiCommitBegin(router);
+                horiLine.insertBreakpointsFinish(router, vertLine);
+
                 // Add horizontal visibility segment.
                 horiLine.addEdgeHorizontal(router);
-
-                horiLine.insertBreakpointsFinish(router, vertLine);
 
                 size_t dim = XDIM; // x-dimension
                 horiLine.generateVisibilityEdgesFromBreakpointSet(router, dim);
